@@ -22,6 +22,7 @@ package engines
 
 import (
 	"bytes"
+	"context"
 	"crypto/ecdsa"
 	"crypto/ed25519"
 	"crypto/elliptic"
@@ -36,9 +37,11 @@ import (
 	mrand "math/rand"
 	"net"
 	"strings"
+	"sync"
 	"time"
 
 	"github.com/hashicorp/nodeenrollment"
+	"github.com/hashicorp/nodeenrollment/protocol"
 	"github.com/hashicorp/nodeenrollment/registration"
 	"github.com/hashicorp/nodeenrollment/rotation"
 	"github.com/hashicorp/nodeenrollment/types"
@@ -943,6 +946,103 @@ func sfNear(rng *mrand.Rand) int64 {
 // ---------------------------------------------------------------------------
 // library-created requests
 
+// sfRunDialRetries: a node that is not authorized yet dials the same listener several times (what a worker
+// waiting for its operator does); the server-side fetch function records the request each attempt presents.
+// Every attempt's request must have been created for that attempt: a bundle that is byte-identical to the
+// one of an earlier attempt and whose NotBefore lies before the attempt began is a request that is no longer
+// valid "from creation". After the operator authorizes the node the next attempt must enroll it.
+func sfRunDialRetries(c *engine.Ctx, replica int, srv *sfSrv) {
+	r := c.R
+	sc := sfCase{Kind: "created", Target: "created/dial-retry", Replica: replica}
+	var mu sync.Mutex
+	var seen []*types.FetchNodeCredentialsRequest
+	fetchFn := func(ctx context.Context, st nodeenrollment.Storage, req *types.FetchNodeCredentialsRequest, opt ...nodeenrollment.Option) (*types.FetchNodeCredentialsResponse, error) {
+		mu.Lock()
+		seen = append(seen, proto.Clone(req).(*types.FetchNodeCredentialsRequest))
+		mu.Unlock()
+		return registration.FetchNodeCredentials(ctx, st, req, opt...)
+	}
+	lw, err := world.NewLW(srv.s, world.LWCfg{FetchFn: fetchFn})
+	if err != nil {
+		r.Broken("sigfresh: listener: " + err.Error())
+		return
+	}
+	defer lw.Close()
+	n, err := world.NewNode(replica%2 == 1, "")
+	if err != nil {
+		r.Broken("sigfresh: new node: " + err.Error())
+		return
+	}
+	attempts := 3 + replica%3
+	var prev [][]byte
+	r.Eval(engine.J(sc), true)
+	for a := 0; a <= attempts; a++ {
+		if a == attempts {
+			// the operator authorizes the node with the request of the last refused attempt
+			mu.Lock()
+			last := seen[len(seen)-1]
+			mu.Unlock()
+			if _, aerr := registration.AuthorizeNode(srv.s.Ctx, srv.s.Store, last, srv.s.Opts()...); aerr != nil {
+				r.Violation("honest-request-rejected", "AuthorizeNode refused the request an honest node presented seconds ago: "+aerr.Error(), sfWitness(sc, nil, last))
+				return
+			}
+		}
+		mu.Lock()
+		before := len(seen)
+		mu.Unlock()
+		t0 := time.Now().Round(0)
+		var conn net.Conn
+		var derr error
+		p, st := engine.Guard(func() { conn, derr = protocol.Dial(n.Ctx, n.Store, lw.Addr, n.NodeOpts()...) })
+		if p != nil {
+			r.Violation("panic:"+engine.LibraryFrame(st), fmt.Sprintf("protocol.Dial panicked: %v", p), sc)
+			return
+		}
+		if conn != nil {
+			if rec, werr := lw.Wait(conn.LocalAddr().String()); werr == nil && rec.Conn != nil {
+				rec.Conn.Close()
+			}
+			conn.Close()
+		}
+		mu.Lock()
+		got := append([]*types.FetchNodeCredentialsRequest{}, seen[before:]...)
+		mu.Unlock()
+		if len(got) == 0 {
+			r.Violation("dial-attempt-presented-no-request", fmt.Sprintf("attempt %d of an unauthorized node's Dial presented no fetch request to the server (err=%v)", a, derr), sc)
+			return
+		}
+		for _, req := range got {
+			info := world.DecodeInfo(req)
+			if info == nil || info.NotBefore == nil {
+				r.Violation("created-request-without-window", "the request a dial attempt presented does not decode or carries no validity window", sfWitness(sc, nil, req))
+				return
+			}
+			reused := false
+			for _, pb := range prev {
+				if bytes.Equal(pb, req.Bundle) {
+					reused = true
+				}
+			}
+			if reused && info.NotBefore.AsTime().Before(t0) {
+				r.Violation("created-request-not-valid-from-creation:dial-retry", fmt.Sprintf("dial attempt %d presented the signed bundle of an earlier attempt: its NotBefore=%s lies before the attempt began (%s), so its remaining validity is shorter than the documented lifetime", a, info.NotBefore.AsTime().Format(time.RFC3339Nano), t0.UTC().Format(time.RFC3339Nano)), sfWitness(sc, nil, req))
+				return
+			}
+			prev = append(prev, req.Bundle)
+		}
+		if a == attempts {
+			if derr != nil {
+				r.Violation("honest-request-rejected", fmt.Sprintf("the dial after authorization (attempt %d of the same node) did not enroll it: %v", a, derr), sc)
+				return
+			}
+			r.Count("dial_retry_enrolled_after_authorization", 1)
+		} else if derr == nil {
+			r.Violation("unauthorized-dial-succeeded", fmt.Sprintf("dial attempt %d of a node nobody authorized succeeded", a), sc)
+			return
+		}
+		r.Count("dial_attempts_with_fresh_request", 1)
+	}
+}
+
 func sfRunCreated(c *engine.Ctx, sc sfCase, srv *sfSrv) {
 	r := c.R
 	var n *world.Node
@@ -1153,6 +1253,18 @@ func runSigFresh(c *engine.Ctx) engine.Result {
 		sfRunOne(c, sfCase{Kind: "created", Target: flavours[i%3], Replica: i}, pool)
 	})
 	r.Sample(sfCase{Kind: "created", Target: flavours[1], Replica: 1})
+	{
+		dsrv, derr := sfNewSrv(false)
+		if derr != nil {
+			r.Broken("sigfresh: dial-retry server: " + derr.Error())
+			return res
+		}
+		nretry := c.Pick(12, 120)
+		engine.ForEach(nretry, engine.Workers(), func(i int) { sfRunDialRetries(c, i, dsrv) })
+		dsrv.s.Close()
+		r.Require("dial_attempts_with_fresh_request", int64(nretry*3))
+		r.Require("dial_retry_enrolled_after_authorization", int64(nretry))
+	}
 
 	// ---- promised coverage ------------------------------------------------------------
 	nw := int64(len(jobs))
